@@ -251,7 +251,7 @@ def apply_A(vm, e, hs):
     return fit_apply((e.fx, e.fy, e.fz), eta, vm.zeta, *hs)
 
 
-def search_case(rng, shape, cplx, lr, nu, seed=None):
+def search_case(rng, shape, cplx, lr, nu, seed=None, zero_source=False):
     import emg3d
     import emg3d.solver as S
     if seed is None:
@@ -260,7 +260,8 @@ def search_case(rng, shape, cplx, lr, nu, seed=None):
     wellcond = (seed % 3 != 0)
     tolf = 1.0 if wellcond else 1e4      # see make_problem: rounding at 1 Hz is amplified ~1e6
     grid, vm, freq, hs = make_problem(npr, shape, cplx, wellcond=wellcond)
-    base = dict(shape=list(shape), complex=cplx, lr_dir=lr, nu=nu, np_seed=seed, frequency=freq)
+    base = dict(shape=list(shape), complex=cplx, lr_dir=lr, nu=nu, np_seed=seed, frequency=freq,
+                zero_source=zero_source)
     # 1. an exact solution is left unchanged
     estar = rand_pec(npr, grid, freq)
     ax, ay, az = apply_A(vm, estar, hs)
@@ -275,6 +276,11 @@ def search_case(rng, shape, cplx, lr, nu, seed=None):
     # 2. affine in (field, source)
     u1, u2 = rand_pec(npr, grid, freq), rand_pec(npr, grid, freq)
     s1, s2 = rand_pec(npr, grid, freq), rand_pec(npr, grid, freq)
+    if zero_source:
+        # homogeneous problem: a line / block whose assembled right-hand side is exactly zero
+        # must still be relaxed (its unknowns become the zero solution)
+        s1.field[:] = 0
+        s2.field[:] = 0
     a = 0.375
     um = emg3d.Field(grid, a * u1.field + (1 - a) * u2.field, frequency=freq)
     sm = emg3d.Field(grid, a * s1.field + (1 - a) * s2.field, frequency=freq)
@@ -383,6 +389,18 @@ def search(ctx, broken):
         if h:
             hits.append(h)
             break
+    # structured cases: zero source, a single interior line per direction (its neighbours are
+    # boundary lines, so the assembled right-hand side is exactly zero), and the point smoother
+    if not hits:
+        for i, (lr, shape) in enumerate([(1, (3, 2, 2)), (2, (2, 4, 2)), (3, (2, 2, 3)), (0, (2, 2, 2)),
+                                         (1, (4, 3, 2)), (7, (3, 3, 3))]):
+            for nu in (1, 2):
+                h = search_case(rng, shape, cplx=(i % 2 == 1), lr=lr, nu=nu, zero_source=True)
+                if h:
+                    hits.append(h)
+                    break
+            if hits:
+                break
     ctx.notes.append(f"searcher: {len(combos)} (lr_dir, nu) combinations on random stretched anisotropic problems")
     return hits
 
@@ -391,4 +409,5 @@ def replay(ctx, payload):
     fi = payload.get('failing_input') or {}
     if 'lr_dir' not in fi:
         return False
-    return search_case(ctx.rng, tuple(fi['shape']), fi['complex'], fi['lr_dir'], fi['nu'], fi.get('np_seed')) is None
+    return search_case(ctx.rng, tuple(fi['shape']), fi['complex'], fi['lr_dir'], fi['nu'], fi.get('np_seed'),
+                       zero_source=fi.get('zero_source', False)) is None
